@@ -9,16 +9,20 @@ TRUSTED_BASE = [
     "independent routing/protocol reading coq/Spec/SniRouting.v",
     "translator tools/gen_tables.py: structural facts of core.rs (no-SNI refusal, HTTP/3-on-TCP refusal, reload replaces only on success under the write lock)",
     "extraction + driver.ml, cross-checked against vm_compute; harness doors verif::demux (real TlsDemux built from settings + certificate files, real Core::reload_tls_hosts_settings)",
+    "the endpoint binary built from the working tree and run as a process (harness/src/engines/bin.rs scenario 4): hosts file on disk, SIGHUP, real TLS handshakes",
 ]
 ASSUMPTIONS = [
     "RwLock gives mutual exclusion between reload and select (reload histories are linearised)",
     "certificate loading is environment: every host uses a copy of the test certificate, identity = file name",
     "QUIC calls select twice (certificate callback and finalisation); the QUIC listener is driven with real handshakes and the channel is told from the answer to a plain GET (the tunnel and reverse-proxy channels answer alike); an SNI designating no entry is served from the bootstrap context there, which the property only forbids on TCP",
-    "alternative SNIs shared by two main hosts have an unspecified owner (HashMap order) and are not generated",
+    "a name claimed by two host entries (host name or alternative SNI) designates no single entry: such settings must be refused (C13) and are generated to see the refusal; an alternative SNI repeated within its own entry is harmless and judged by the model comparison only",
+    "the process scenario tells configurations apart by the names that complete a handshake (every host uses the same test certificate); a reload is taken as processed once the binary has logged 'Reloading TLS hosts settings' (or after 3 s) plus 500 ms",
 ]
 RULE = ("host-name assignments over the labels {a,b,c,m} incl. dot-suffix overlaps (a.m, b.a.m) and alternative SNIs, all 8 subsets of "
         "enabled protocols x reverse proxy on/off, SNI strings over the same labels, ALPN lists over {h3,h2,http/1.1,unknown,non-UTF-8} "
-        "up to length 3; reload histories mixing good, duplicate-name and unloadable-certificate reloads with selections; "
+        "up to length 3; reload histories mixing good, duplicate-name, shared-alternative-SNI, unloadable-certificate and certificate-less-file reloads with selections; "
+        "the endpoint binary as a process: its hosts file rewritten (good, missing certificate file, not TOML, file gone, duplicate name, certificate file without "
+        "certificate, shared alternative SNI) and SIGHUP, names probed by real handshakes after every reload; "
         "non-trivial = SNI designates an entry or is a near miss of one; distinct = distinct case line")
 
 ALPNS = [b"h3", b"h2", b"http/1.1", b"spdy/3", b"\xff\xfe", b"H2", b""]
@@ -66,6 +70,70 @@ def gen_config(rng):
     return flags, main, alts, rp, ping, speed
 
 
+def claims(main, alts, rp, ping, speed):
+    """the names every host entry answers to: a main host its name and its alternative SNIs, any other host its name"""
+    out = [[n] + [a for h, a in alts if h == i] for i, n in enumerate(main)]
+    return out + [[n] for n in rp + ping + speed]
+
+
+def shared_name(main, alts, rp, ping, speed):
+    """a name that two different host entries claim (None when every name designates at most one entry)"""
+    seen = {}
+    for i, e in enumerate(claims(main, alts, rp, ping, speed)):
+        for n in e:
+            if seen.setdefault(n, i) != i:
+                return n
+    return None
+
+
+def gen_config_claims(rng):
+    """gen_config, sometimes with an alternative SNI that collides: with another main host's alternative SNI, with a host name of any
+    class, or (harmless) with a name of its own entry"""
+    flags, main, alts, rp, ping, speed = gen_config(rng)
+    r = rng.below(8)
+    if r == 0 and len(main) == 2:
+        a = [x for h, x in alts if h == 0]
+        n = a[0] if a else "s"
+        if not a:
+            alts.append((0, n))
+        alts.append((1, n))
+    elif r == 1:
+        others = rp + ping + speed + (main[1:] if len(main) == 2 else [])
+        if others:
+            alts.append((0, rng.choice(others)))
+    elif r == 2 and len(main) == 2:
+        alts.append((1, main[0]))
+    elif r == 3:
+        own = [main[0]] + [x for h, x in alts if h == 0]
+        alts.append((0, rng.choice(own)))
+    return flags, main, alts, rp, ping, speed
+
+
+# process scenario (bin_run scenario 5): kinds of hosts files, see harness/src/engines/bin.rs `reloads`
+RELOAD_KINDS = {0: "good (localhost + a new name)", 1: "certificate file missing", 2: "not TOML", 3: "hosts file gone", 4: "duplicate host name",
+                5: "certificate file holds the key only", 6: "two main hosts share an alternative SNI", 7: "good (only a new name)"}
+# door scenario (c05_history [2,k]): hosts files that must be refused
+BROKEN_KINDS = {1: "a file that holds neither certificate nor key", 2: "duplicate host names", 3: "a certificate file that holds the key only (good key file)",
+                4: "two main hosts with the same alternative SNI", 5: "an alternative SNI that is another host's name"}
+
+
+def reload_names(steps):
+    return ["localhost"] + ["h%d.example" % k for k in range(len(steps))] + ["alias.example"]
+
+
+def reload_oracle(steps):
+    """the names in force after every step: a good file replaces them, a file that cannot be applied changes nothing"""
+    cur = {"localhost"}
+    out = []
+    for k, kind in enumerate(steps):
+        if kind == 0:
+            cur = {"localhost", "h%d.example" % k}
+        elif kind == 7:
+            cur = {"h%d.example" % k}
+        out.append(set(cur))
+    return out
+
+
 def gen_alpn(rng):
     n = rng.choice([0, 1, 1, 2, 3])
     return [rng.choice(ALPNS) for _ in range(n)]
@@ -91,8 +159,15 @@ def gen_cases(rng, ctx):
         l = line("c05_select", toks)
         cases.append(Case(l, l, kind="select", nontrivial=True,
                           meta={"flags": flags0, "main": main0, "alts": alts0, "rp": [], "ping": [], "speed": [], "queries": queries}))
+    # the binary as a process: hosts file rewritten + SIGHUP, bad then good
+    scripts = [[1, 0], [2, 0], [3, 0], [4, 0], [5, 0], [6, 0], [0, 1, 2, 3, 0], [0, 5, 6, 4, 7, 1, 0]]
+    for _ in range(8 if thorough else 2):
+        scripts.append([rng.choice([0, 1, 2, 3, 4, 5, 6, 7]) for _ in range(rng.range(2, 5))] + [rng.choice([0, 7])])
+    for st in scripts:
+        cases.append(Case(line("bin_run", [[5, 0, 0], st]), None, kind="process:reload", nontrivial=True,
+                          meta={"bin": True, "steps": st, "kinds": [RELOAD_KINDS[k] for k in st]}))
     for _ in range(400 if thorough else 80):
-        flags, main, alts, rp, ping, speed = gen_config(rng)
+        flags, main, alts, rp, ping, speed = gen_config_claims(rng)
         queries = []
         toks = [flags, names(main), alts_tok(alts), names(rp), names(ping), names(speed)]
         cands = main + rp + ping + speed + [a for _, a in alts] + ["c." + main[0], "zz." + main[0], "nope", ""] + LABELS
@@ -144,20 +219,36 @@ def gen_cases(rng, ctx):
             flags, main, alts, rp, ping, speed = gen_config(rng)
         toks = [flags, names(main), alts_tok(alts), names(rp), names(ping), names(speed)]
         cur_names = main + rp + ping + speed
+        ops = []
         for _ in range(rng.range(3, 9)):
             r = rng.below(10)
             if r < 5:
-                sni = rng.choice(cur_names + LABELS[:6])
+                sni = rng.choice(cur_names + LABELS[:6] + ["broken", "one", "two", "shared", "taken", "dup"])
                 toks += [[1], names(gen_alpn(rng)), list(sni.encode())]
+                ops.append(("select", sni))
             elif r < 8:
-                f2, m2, a2, r2, p2, s2 = gen_config(rng)
+                f2, m2, a2, r2, p2, s2 = gen_config_claims(rng)
                 toks += [[2], names(m2), alts_tok(a2), names(r2), names(p2), names(s2)]
-                if len(set(m2 + r2 + p2 + s2)) == len(m2 + r2 + p2 + s2):
-                    cur_names = m2 + r2 + p2 + s2
+                # (a reverse-proxy host is an entry of the demultiplexer only when the reverse proxy is enabled: otherwise left to the model comparison)
+                shared = shared_name(m2, a2, r2 if flags[3] else [], p2, s2)
+                if shared_name(m2, a2, r2, p2, s2) is None:
+                    cur_names = m2 + r2 + p2 + s2 + [a for _, a in a2]
+                ops.append(("reload", None if shared is None else "the name %r is claimed by two host entries (main %s, alternative SNIs %s, reverse proxy %s, ping %s, speedtest %s)"
+                            % (shared, m2, a2, r2, p2, s2)))
             else:
-                toks += [[2, rng.choice([1, 2])], [], [], [], [], []]
+                k = rng.choice([1, 2, 3, 4, 5])
+                toks += [[2, k], [], [], [], [], []]
+                ops.append(("reload", BROKEN_KINDS[k]))
         l = line("c05_history", toks)
-        cases.append(Case(l, l, kind="reload-history", nontrivial=True))
+        cases.append(Case(l, l, kind="reload-history", nontrivial=True, meta={"ops": ops}))
+    # corpus: every kind of hosts file that must be refused, between two selections of the configuration in force
+    for k in sorted(BROKEN_KINDS):
+        toks = [[1, 1, 0, 0], names(["m"]), [], [], [], [], [1], names([b"h2"]), list(b"m"), [2, k], [], [], [], [], [], [1], names([b"h2"]), list(b"m"),
+                [1], names([]), list(b"broken"), [1], names([]), list(b"one"), [1], names([]), list(b"dup")]
+        l = line("c05_history", toks)
+        cases.append(Case(l, l, kind="reload-history:refused-%d" % k, nontrivial=True,
+                          meta={"ops": [("select", "m"), ("reload", BROKEN_KINDS[k]), ("select", "m"), ("select", "broken"), ("select", "one"), ("select", "dup")],
+                                "expect": ["m", None, "m", None, None, None]}))
     return cases
 
 
@@ -207,10 +298,77 @@ def oracle(meta):
     return out
 
 
+NEEDS_ENDPOINT_BIN = True
+RETRY_PREFIX = "process:"
+
+
+def judge_process(case, impl, ctx):
+    if impl == "996":
+        ctx.setdefault("skipped_env", []).append(case.kind)
+        return []
+    steps = case.meta["steps"]
+    toks = [untok(t) for t in impl.split()]
+    if len(toks) != len(steps) + 1:
+        return [("violation", "the process scenario %s gave no complete answer: %s" % (steps, impl))]
+    names_ = reload_names(steps)
+    told = "the endpoint binary, hosts file rewritten + SIGHUP, reloads %s = %s" % (steps, [RELOAD_KINDS[k] for k in steps])
+    for k, (kind, want, t) in enumerate(zip(steps, reload_oracle(steps), toks)):
+        alive, code, served, unknown = t
+        if not alive:
+            return [("violation", "%s: the process ended (exit code %d) at reload %d (%s); %s" % (
+                told, code, k, RELOAD_KINDS[kind],
+                "a failed reload must leave the previous configuration in force" if kind not in (0, 7) else "a reload must switch the configuration, not end the endpoint"))]
+        for bit, n in enumerate(names_):
+            if (unknown >> bit) & 1:
+                continue
+            got = bool((served >> bit) & 1)
+            if got != (n in want):
+                good = kind in (0, 7)
+                return [("violation", "%s: after reload %d (%s) a handshake for %r %s, but the configuration in force %s has the names %s" % (
+                    told, k, RELOAD_KINDS[kind], n, "completes" if got else "is refused",
+                    "(this file)" if good else "(the previous one: this file cannot be applied)", sorted(want)))]
+    return []
+
+
 def judge(case, impl, model, spec, ctx):
+    if case.meta and case.meta.get("bin"):
+        return judge_process(case, impl, ctx)
     if impl == "999":
         return [("violation", "the TLS demultiplexer panicked")]
     out = []
+    if case.kind.startswith("reload-history") and case.meta and case.meta.get("ops"):
+        # direct reading: a hosts file that must be refused is refused (what is selected afterwards is compared with the model, and,
+        # in the corpus cases, with the names of the configuration that stays in force)
+        toks = impl.split()
+        i = 0
+        for n, (op, why) in enumerate(case.meta["ops"]):
+            if i >= len(toks):
+                break
+            t = untok(toks[i])
+            if op == "reload":
+                if t[0] != 3:
+                    break
+                if why is not None and t[1] != 0:
+                    out.append(("violation", "reload %d of the history was applied although its hosts file has %s" % (n, why)))
+                    break
+                i += 1
+            else:
+                selected = t[0] == 1
+                exp = case.meta.get("expect")
+                if exp is not None and selected != (exp[n] is not None):
+                    out.append(("violation", "after a reload that must be refused (%s) the SNI %r is %s" % (
+                        [w for o, w in case.meta["ops"] if o == "reload"][0], why, "served" if selected else "no longer served")))
+                    break
+                i += 2 if selected else 1
+        if out:
+            return out
+    if case.kind == "select" and case.meta:
+        m = case.meta
+        shared = shared_name(m["main"], m["alts"], m["rp"] if m["flags"][3] else [], m["ping"], m["speed"])
+        if shared is not None and impl != "2":
+            return [("violation", "host settings accepted although the name %r is claimed by two host entries (main %s, alternative SNIs %s, reverse proxy %s, "
+                                  "ping %s, speedtest %s): the entry that SNI designates, and with it the certificate served, is not determined"
+                     % (shared, m["main"], m["alts"], m["rp"], m["ping"], m["speed"]))]
     if case.meta and case.meta.get("quic"):
         if impl == "996":
             ctx.setdefault("skipped_env", []).append(case.kind)
